@@ -54,6 +54,8 @@ const (
 	wWG
 	wProc
 	wNever
+	wRWWrite
+	wRWRead
 )
 
 type Task struct {
@@ -375,6 +377,11 @@ func (s *Sim) ready(t *Task) bool {
 		return t.wobj.(*WaitGroup).n == 0
 	case wProc:
 		return t.wobj.(*Process).Exited
+	case wRWWrite:
+		m := t.wobj.(*RWMutex)
+		return !m.writer && m.readers == 0
+	case wRWRead:
+		return !t.wobj.(*RWMutex).writer
 	case wNever:
 		return false
 	}
